@@ -413,6 +413,79 @@ def pred_fresh(prog: Program) -> RuleResult:
     return r
 
 
+def lit_one(prog: Program) -> RuleResult:
+    """A concrete argument of a symbolic call becomes a Literal, and at every binding the parameter gets *that value*: None, an empty
+    collection, a collection.  So the literal's domain is the one-element list of its data on every path through its constructor -
+    never the data itself (a collection would be taken for a domain of several values, None for 'no domain')."""
+    r = RuleResult("LIT-ONE", "a literal's domain is the one-element list of its data, whatever the data is", floor=1)
+    lit = prog.cls("symbolic.Literal")
+    f = prog.method(lit.qual, "__init__", inherited=False)
+    dparam = f.params[1]
+    cfg = CFG(f.node)
+    sup = [c for c in calls_in(f.node) if is_super_call(c, "__init__")]
+    if len(sup) != 1:
+        raise AnalysisError("LIT-ONE: Literal.__init__ no longer has a single super().__init__ call")
+    ds = kwarg(sup[0], "_domain_source_")
+    if ds is None:
+        raise AnalysisError("LIT-ONE: Literal.__init__ no longer passes _domain_source_")
+    inner = ds.args[0] if isinstance(ds, ast.Call) and ds.args else ds
+    aliases = {dparam} | {a.targets[0].id for a in walk_local(f.node) if isinstance(a, ast.Assign) and len(a.targets) == 1 and isinstance(a.targets[0], ast.Name) and isinstance(a.value, ast.Name) and a.value.id == dparam}
+
+    def is_wrap(e) -> bool:
+        return isinstance(e, (ast.List, ast.Tuple)) and len(e.elts) == 1 and isinstance(e.elts[0], ast.Name) and e.elts[0].id in aliases
+
+    ok = False
+    why = f"the domain source is built from `{src(inner)}`"
+    if is_wrap(inner):
+        ok = True
+    elif isinstance(inner, ast.Name):
+        assigns = [n for n in cfg.nodes if n.kind == "stmt" and isinstance(n.stmt, ast.Assign) and any(isinstance(t, ast.Name) and t.id == inner.id for t in n.stmt.targets)]
+        wraps = [n for n in assigns if is_wrap(n.stmt.value)]
+        others = [n for n in assigns if n not in wraps]
+        call_node = cfg.node_of(sup[0])
+        raw_reaches = inner.id in f.params and cfg.path_avoiding(cfg.entry, call_node, {n.id for n in assigns}) is not None
+        # a later assignment that is not the wrap must not lie between a wrap and the call
+        overwritten = any(cfg.path_avoiding(o.id, call_node, {w.id for w in wraps}) is not None for o in others)
+        ok = bool(wraps) and not raw_reaches and not overwritten
+        if raw_reaches:
+            why = f"on some path `{inner.id}` reaches the domain source as the raw argument (not wrapped in a one-element list)"
+        elif overwritten:
+            why = f"`{inner.id}` is assigned something other than [data] after it was wrapped"
+    r.check(ok, "Literal.__init__#domain-is-the-one-element-list", site(f, sup[0]), src(ds)[:80], "From([data]) on every path",
+            f"{why}: a concrete None then has an empty domain (evaluation raises 'Cannot evaluate variable' instead of invoking the predicate with None), a concrete collection is "
+            "spread over several bindings instead of being passed as one value")
+    return r
+
+
+def arg_symbolic(prog: Program) -> RuleResult:
+    """An argument that is an expression of the language - a variable, an attribute chain, but also a comparison or a logical combination -
+    is evaluated per binding and its *value* is what the parameter gets.  The test that decides between 'keep symbolic' and 'wrap as a
+    literal' has to admit every concrete expression class; an expression wrapped as a literal is passed as the (always truthy) node."""
+    from .c01 import concrete_classes
+
+    r = RuleResult("ARG-SYMBOLIC", "every expression of the language stays symbolic as an argument of a symbolic call", floor=1)
+    var = prog.cls("symbolic.Variable")
+    f = prog.method(var.qual, "_update_child_vars_from_kwargs_", inherited=False)
+    if f is None:
+        raise AnalysisError("ARG-SYMBOLIC: Variable._update_child_vars_from_kwargs_ vanished")
+    concrete = concrete_classes(prog)
+    tests = [t for t in walk_local(f.node) if isinstance(t, (ast.If, ast.IfExp)) and any(isinstance(c, ast.Call) and isinstance(c.func, ast.Name) and c.func.id == "isinstance" for c in ast.walk(t.test))]
+    lit_branch = [t for t in tests if any(isinstance(c, ast.Call) and isinstance(c.func, ast.Name) and c.func.id == "Literal" for c in ast.walk(t))]
+    if not lit_branch:
+        raise AnalysisError("ARG-SYMBOLIC: the literal / symbolic decision is no longer an isinstance test in _update_child_vars_from_kwargs_")
+    for t in lit_branch:
+        covered = set()
+        for c in [c for c in ast.walk(t.test) if isinstance(c, ast.Call) and isinstance(c.func, ast.Name) and c.func.id == "isinstance" and len(c.args) == 2]:
+            for k in (c.args[1].elts if isinstance(c.args[1], ast.Tuple) else [c.args[1]]):
+                q = f.module.resolve(k)
+                covered |= {x.name for x in concrete if q and prog.is_subclass(x.qual, q)}
+        missing = sorted({x.name for x in concrete} - covered)
+        r.check(not missing, "Variable._update_child_vars_from_kwargs_#every-expression-kind", site(f, t), src(t.test)[:80], f"all {len(concrete)} concrete expression classes are kept symbolic",
+                f"arguments of kind {missing} are wrapped as literals: p(x, x.a > 2) passes the comparison *node* (always truthy, never equal to a bool) instead of its value per binding, "
+                "so satisfying assignments are dropped or others reported")
+    return r
+
+
 def pred_names(prog: Program) -> RuleResult:
     """Parameter names are a function of the callable itself: a cache may be keyed by the callable (lru_cache, dict[function])
     but not by something derived from it (name, qualname, module) - distinct callables can share those."""
@@ -449,4 +522,4 @@ def run(prog: Program, tier: str) -> List[RuleResult]:
     from .c01 import ep_operand
 
     # the truth a symbolic call contributes: flagged from its result only in condition position (shared with C01)
-    return [pred_align(prog), pred_dispatch(prog), pred_once(prog), pred_names(prog), pred_fresh(prog), ep_operand(prog)]
+    return [pred_align(prog), pred_dispatch(prog), pred_once(prog), pred_names(prog), pred_fresh(prog), lit_one(prog), arg_symbolic(prog), ep_operand(prog)]
